@@ -12,28 +12,29 @@ from ..core import AnalysisError, own_nodes, norm
 from .. import pdrules
 
 LEVEL_TEXT = ('static analysis: (D1) a kind system for index values (family LABEL | POSITION, endpoint FIRST | LAST | ONE_PAST), inferred for '
-              'every slice bound and comparison in CopyNumArray.by_gene from where the value comes from (_get_gene_map stores index labels; a '
-              'pd.Series(np.arange(len), index=<table>.index) lookup turns a label into a position): .loc slices need labels and a LAST upper '
-              'bound (closed), .iloc slices positions and a ONE_PAST / next-FIRST upper bound (half-open), label arithmetic and label-vs-position'
-              " or ONE_PAST-vs-LAST strict comparisons are errors -- necessary for 'each bin exactly once'; (D1b) by_gene interpreted on 1383 "
-              'literal tables (1-4 bins over names A, B, -, Antitarget x every placement of chromosome boundaries, plus longer hand-picked ones, '
-              "restricted to the property's premise; index labels that are not the positions): it yields, in order, each gene's first..last bins "
-              'and the Antitarget stretches before, between and after them, every bin exactly once; (D2) group_by_genes interpreted on a symbolic'
-              ' 3-bin gene: start = first start, end = last end, probes = number of bins, weight = sum, depth = weight-averaged, log2 = weight-'
-              'averaged log2 (plain mean when all weights are 0), gene name set; gene_metrics_by_gene keeps a gene <=> |log2| >= threshold; '
-              "gene_metrics_by_segment overwrites log2 with the segment's and filters on the segment's |log2|; squash_genes.squash_rows gives "
-              'first start / last end / summed probes; (D3a) get_gene_intervals on literal bins gives each gene its sorted bin starts and the '
-              'furthest bin end (nested bins, rows listed far-to-near); (D3) get_breakpoints reports a gene <=> first start < segment end < gene '
-              'end and both side counts >= min_probes, counted by start < end / start >= end, only between segments of one chromosome, also when '
-              'the next segment starts after a gap. D3 also has two genes whose spans overlap (every gene is examined for every boundary) and D2 '
-              "runs group_by_genes end to end with the real by_gene on literal bins holding '-', '.', 'CGH' and Antitarget names: exactly the "
-              'named genes are reported, with the bins between their first and last bin. gene_metrics_by_segment runs end to end on literal bins '
-              "(a gene whose own bins have no usable coverage is still listed with the segment's log2); (D4) do_genemetrics hands shift_xx one "
-              'and the same sex for bins and segments: the stated one, else the one inferred from the bins. (CLI) the `genemetrics / breaks` '
-              'command line(s), through a model of argparse built from the declarations in commands.py and the real _cmd_ body interpreted with '
-              'readers, library step and writers stubbed: bins and segments in their roles, threshold, minimum bin count, --drop-low-coverage and'
-              " the sex options reach the report functions as given. Does not decide behaviour on interleaved genes (outside the property's "
-              'premise).')
+              'every slice bound and comparison in CopyNumArray.by_gene (and the helpers of its module it calls) from where the value comes from '
+              '(_get_gene_map stores index labels; a pd.Series(np.arange(len), index=<table>.index) lookup turns a label into a position): .loc '
+              'slices need labels and a LAST upper bound (closed), .iloc slices positions and a ONE_PAST / next-FIRST upper bound (half-open), '
+              "label arithmetic and label-vs-position or ONE_PAST-vs-LAST strict comparisons are errors -- necessary for 'each bin exactly once';"
+              ' (D1b) by_gene interpreted on 1383 literal tables (1-4 bins over names A, B, -, Antitarget x every placement of chromosome '
+              "boundaries, plus longer hand-picked ones, restricted to the property's premise; index labels that are not the positions): it "
+              "yields, in order, each gene's first..last bins and the Antitarget stretches before, between and after them, every bin exactly "
+              'once; (D2) group_by_genes interpreted on a symbolic 3-bin gene: start = first start, end = last end, probes = number of bins, '
+              'weight = sum, depth = weight-averaged, log2 = weight-averaged log2 (plain mean when all weights are 0), gene name set; '
+              "gene_metrics_by_gene keeps a gene <=> |log2| >= threshold; gene_metrics_by_segment overwrites log2 with the segment's and filters "
+              "on the segment's |log2|; squash_genes.squash_rows gives first start / last end / summed probes; (D3a) get_gene_intervals on "
+              'literal bins gives each gene its sorted bin starts and the furthest bin end (nested bins, rows listed far-to-near); (D3) '
+              'get_breakpoints reports a gene <=> first start < segment end < gene end and both side counts >= min_probes, counted by start < end'
+              ' / start >= end, only between segments of one chromosome, also when the next segment starts after a gap. D3 also has two genes '
+              'whose spans overlap (every gene is examined for every boundary) and D2 runs group_by_genes end to end with the real by_gene on '
+              "literal bins holding '-', '.', 'CGH' and Antitarget names: exactly the named genes are reported, with the bins between their first"
+              ' and last bin. gene_metrics_by_segment runs end to end on literal bins (a gene whose own bins have no usable coverage is still '
+              "listed with the segment's log2); (D4) do_genemetrics hands shift_xx one and the same sex for bins and segments: the stated one, "
+              'else the one inferred from the bins. do_breaks runs end to end on literal bins / segments with gene-less chromosomes split into '
+              'several segments before and after the one whose gene is cut. (CLI) the `genemetrics / breaks` command line(s), through a model of '
+              'argparse built from the declarations in commands.py and the real _cmd_ body interpreted with readers, library step and writers '
+              'stubbed: bins and segments in their roles, threshold, minimum bin count, --drop-low-coverage and the sex options reach the report '
+              "functions as given. Does not decide behaviour on interleaved genes (outside the property's premise).")
 TECHNIQUE = ("index-kind type system over one function's def-use chains; bounded exhaustive interpretation of by_gene on literal tables with "
              'literal index labels; abstract interpretation of the summary functions on symbolic rows')
 
